@@ -50,6 +50,7 @@ func FloorToPowerOfTwo(n int) int {
 	n |= n >> 4
 	n |= n >> 8
 	n |= n >> 16
+	n |= n >> (bitSize >> 1) // >> 32 on 64-bit platforms, a no-op repetition of >> 16 on 32-bit ones
 
 	return n - (n >> 1)
 }
